@@ -76,7 +76,10 @@ def _frame(ms):
     for c, vals in ms["ef"].items():
         data[c] = np.array(vals, dtype=np.float64)
     idx = pd.MultiIndex.from_arrays([eids, nids], names=["element_id", "node_id"])
-    return pd.DataFrame(data, index=idx)
+    df = pd.DataFrame(data, index=idx)
+    if ms.get("text_col") in df.columns:
+        df[ms["text_col"]] = np.array([repr(v) for v in df[ms["text_col"]]], dtype=object)   # not numeric: no valid mesh
+    return df
 
 
 class _Info:
@@ -116,8 +119,11 @@ class _Info:
             zs = [p[j] for p in ms["xyz"]]
             self.z_varies = any(z != zs[0] for z in zs)
         self.dim = 3 if self.z_varies else 2
+        self.coincident = len(set(tuple(_bits(p).tolist()) for p in ms["xyz"])) < len(ms["xyz"])
         if "x" not in cols or "y" not in cols:
             self.why = "coordinate column missing"
+        elif ms.get("text_col") in cols:
+            self.why = "coordinate column is not numeric"
         elif not rows:
             self.why = "empty mesh"
         elif any(c not in SUPPORTED[self.dim] for c in self.counts):
@@ -244,6 +250,8 @@ def _step(k, op, ex, model, meshes, infos, frames, ctx, stats, api):
                 ctx.label("mesh:quadratic")
             if info.above32:
                 ctx.label("mesh:ids_above_int32")
+            if info.valid and info.coincident:
+                ctx.label("mesh:coincident_nodes_with_different_ids")
         if dup:
             ctx.label("op:geom_duplicate")
             _expect_failure(k, op, exc, (KeyError,), "duplicate geometry name", ctx)
@@ -681,6 +689,16 @@ def _mesh(draw, tier, max_elements=None, broken=None):
     else:
         zs = [draw(st.sampled_from([0.0, 0.0, 1.5, -0.0, 1e300]))] * nn
     xyz = [[xs[i], ys[i]] + ([zs[i]] if zs is not None else []) for i in range(nn)]
+    if nn >= 2 and draw(st.integers(0, 3)) == 3:
+        # two (or three) different node ids at exactly the same position: tied contact, crack faces, interface nodes
+        src = draw(st.integers(0, nn - 1))
+        for _ in range(draw(st.integers(1, 2))):
+            dst = draw(st.integers(0, nn - 1))
+            if dst != src and not (dim == 3 and len(set(p[2] for k, p in enumerate(xyz) if k != dst) | {xyz[src][2]}) < 2):
+                xyz[dst] = list(xyz[src])
+    text_col = None
+    if broken == "text":
+        text_col = draw(st.sampled_from(cols))
     if broken in ("x", "y"):
         j = cols.index(broken)
         cols = cols[:j] + cols[j + 1:]
@@ -701,7 +719,10 @@ def _mesh(draw, tier, max_elements=None, broken=None):
     if draw(st.integers(0, 9)) >= 3:
         ef["a"] = draw(_values(nrows, _SPECIAL_ANY))
         ef["b"] = draw(_values(nrows, _SPECIAL_ANY))
-    return {"rows": rows, "nodes": nodes, "cols": cols, "xyz": xyz, "nf": nf, "ef": ef}
+    ms = {"rows": rows, "nodes": nodes, "cols": cols, "xyz": xyz, "nf": nf, "ef": ef}
+    if text_col is not None:
+        ms["text_col"] = text_col
+    return ms
 
 
 _GEOM_NAMES = ["1", "2", "PART-1", "g 3", "Bär", "geometry_with_a_longer_name"]
@@ -839,7 +860,7 @@ def _draw_geom(draw, tier, b, ops, how, name=None, max_elements=None):
     if how == "not_frame":
         ops.append({"op": "geom", "name": name, "mesh": None})
         return name
-    if how in ("count", "x", "y"):
+    if how in ("count", "x", "y", "text"):
         b.meshes.append(draw(_mesh(tier, max_elements=max_elements, broken=how)))
         ops.append({"op": "geom", "name": name, "mesh": len(b.meshes) - 1})
         return name
@@ -855,11 +876,12 @@ def _draw_geom(draw, tier, b, ops, how, name=None, max_elements=None):
 
 _WEIGHTS = {
     # (kind, how): weight
-    "history": [("geom", "ok", 5), ("geom", "dup", 1), ("geom", "count", 1), ("geom", "x", 1), ("geom", "not_frame", 1),
+    "history": [("geom", "ok", 5), ("geom", "dup", 1), ("geom", "count", 1), ("geom", "x", 1), ("geom", "not_frame", 1), ("geom", "text", 1),
                 ("set", "ok", 6), ("set", "notsubset", 1), ("set", "nogeom", 1),
                 ("var", "ok", 8), ("var", "dup", 1), ("var", "missing_column", 2), ("var", "no_columns", 1),
                 ("var", "no_location", 1), ("var", "bad_location", 1), ("var", "nogeom", 1)],
     "rollback": [("geom", "ok", 2), ("geom", "dup", 2), ("geom", "count", 3), ("geom", "y", 1), ("geom", "x", 1), ("geom", "not_frame", 1),
+                 ("geom", "text", 2),
                  ("set", "ok", 1), ("set", "notsubset", 2), ("set", "nogeom", 1),
                  ("var", "ok", 2), ("var", "dup", 2), ("var", "missing_column", 4), ("var", "no_columns", 2),
                  ("var", "no_location", 2), ("var", "bad_location", 2), ("var", "nogeom", 1)],
